@@ -61,8 +61,23 @@ func (r *verifReport) explore(sys *verifSys) verifStats {
 	}
 	r.Parts = append(r.Parts, map[string]interface{}{"sys": sys.ID, "states": st.States, "transitions": st.Transitions,
 		"maximal_paths": st.MaxPaths, "max_depth": st.MaxDepth, "distinct_outcomes": len(st.Outcomes), "cut": st.Cut})
-	r.Violations = append(r.Violations, vs...)
+	for _, v := range vs {
+		r.addViolation(v)
+	}
 	return st
+}
+
+func (r *verifReport) addViolation(v *verifViolation) {
+	for _, o := range r.Violations {
+		if o.Sig == v.Sig {
+			o.Count += v.Count
+			if len(v.Path) < len(o.Path) {
+				o.Path, o.Detail, o.Sys, o.Seed = v.Path, v.Detail, v.Sys, v.Seed
+			}
+			return
+		}
+	}
+	r.Violations = append(r.Violations, v)
 }
 
 func (r *verifReport) addCase(prop, sig, detail string, c interface{}) {
